@@ -749,7 +749,8 @@ let do_rfr id ins outs =
     let canon tok = (match List.find_opt (fun (t, _, _) -> t = tok) entries with
         | Some (_, c, _) -> if c = [] then None else Some c | None -> None) in
     let parse_f content = read_hosts canon content in
-    let st = ref { r_tbl = parse_f []; r_info = None; r_expires = Z0 } in
+    (* a table object that has not read any file yet holds nothing (not even the built-in localhost names) *)
+    let st = ref { r_tbl = { ht_names = []; ht_addrs = [] }; r_info = None; r_expires = Z0 } in
     let now = ref 1 and file = ref None and away = ref None in
     let os = ref (String.split_on_char ';' outss) in
     let problems = ref [] and nl = ref 0 and nchanged = ref 0 in
@@ -1288,6 +1289,26 @@ let () =
       | "faulttcp" :: id :: rest -> let (i, o) = split_arrow rest in fault_tcp := true; do_fault id i o; fault_tcp := false
       | "sid" :: id :: rest -> let (i, o) = split_arrow rest in do_sid id i o
       | "e2e" :: id :: rest -> let (i, o) = split_arrow rest in do_e2e id i o
+      | "e2el" :: id :: rest ->
+        (* a name the upstream does not know and a discovery source does: answered locally -- exactly one reply, carrying the
+           query's ID and question, and not an error *)
+        let (i, o) = split_arrow rest in
+        (match i, o with
+         | [proto; qh], [nrep; rep] ->
+           let tag = "local/" ^ proto in
+           if nrep <> "1" then verdict "e2el" id "spec:C01" tag (Printf.sprintf "%s replies to one well-formed query" nrep)
+           else begin
+             let q = string_of_bytes (bytes_of_token qh) and r = string_of_bytes (bytes_of_token rep) in
+             let qend = (let rec go k = if k >= String.length q then k else if q.[k] = '\000' then k + 5 else go (k + 1 + Char.code q.[k]) in go 12) in
+             if String.length r < qend || String.sub r 0 2 <> String.sub q 0 2 then
+               verdict "e2el" id "spec:C01" tag (Printf.sprintf "the reply does not carry the query's ID: query=%s reply=%s" qh rep)
+             else if String.sub r 12 (qend - 12) <> String.sub q 12 (qend - 12) then
+               verdict "e2el" id "spec:C01" tag (Printf.sprintf "the reply does not carry the query's question: query=%s reply=%s" qh rep)
+             else if Char.code r.[2] land 0x80 = 0 || Char.code r.[3] land 15 <> 0 then
+               verdict "e2el" id "spec:C01,C12" tag (Printf.sprintf "a name known on the LAN was not answered locally: reply=%s" rep)
+             else verdict "e2el" id "ok" tag ""
+           end
+         | _ -> verdict "e2el" id "diff" "malformed-line" "")
       | "lmc" :: id :: rest -> let (i, o) = split_arrow rest in do_lmc id i o
       | "dsvc" :: id :: rest -> let (i, o) = split_arrow rest in do_dsvc id i o
       | "dact" :: id :: rest -> let (i, o) = split_arrow rest in do_dact id i o
